@@ -4,7 +4,7 @@ Real Host.send_l2cap_pdu / send_acl_sdu / send_iso_sdu (fragmentation), HCI_AclD
 HCI_AclDataPacketAssembler (host side and controller side), host.Connection queue selection and
 on_acl_pdu; E2 loop-body verification conditions cover the full 16-bit ranges.
 """
-from vf.e1 import harness, untraced, concrete as C
+from vf.e1 import harness, registered, untraced, concrete as C
 from vf import flags as _flags
 from vf import detloop
 
@@ -247,6 +247,13 @@ def iso_fragments(m: int, n: int, seq: int) -> bool:
 
 
 _flags.int_format_placeholder = True
+
+
+def conditions():
+    # a PDU only finishes crossing the link when the completions for its fragments are credited: the host-side handling of
+    # Number Of Completed Packets events that also name other (SCO, stale) handles lives with the queue harnesses (C04) and counts here too
+    from vf.props import c04
+    return registered(__name__) + [c for c in registered(c04.__name__) if c.name.split('@')[0].split('.')[0] == 'host_completion_event']
 
 
 def e2_obligations(tier):
